@@ -61,7 +61,7 @@ static void reg_oracle(const double *yt, const double *yp, size_t n, regref *o)
      dA <= eps (m sum|yp||yt-ybar| + sum|yt| sum|yp|), dB likewise with yt */
   dA = (ld)DEPS * ((ld)m * absA + sabs * spabs);
   dB = (ld)DEPS * ((ld)m * absB + sabs * sabs);
-  o->tol_bias = 64.0 * (double)(dA / sstot + fabsl(sxy) * dB / (sstot * sstot)) + 64.0 * DEPS * (1.0 + (double)fabsl(o->slope));
+  o->tol_bias = 256.0 * (double)(dA / sstot + fabsl(sxy) * dB / (sstot * sstot)) + 64.0 * DEPS * (1.0 + (double)fabsl(o->slope));
 }
 
 /* judge one (truth, prediction) pair given the five library values */
